@@ -116,7 +116,70 @@ def observer(got, pred, sp, call, sg, prog, ctx, part):
                     return
 
 
+def magnitude_chunk(idx, items):
+    """Generated LPs whose data span 20 orders of magnitude, solved by every LP method under the recorder: the status
+    must be the image of the linprog status code (Solve.tla LPReturn, validated on the recorded trace) and agree with a
+    direct linprog call on hand-assembled matrices."""
+    import optyx
+    import scipy.optimize
+    from .. import recorder
+    part = {'violations': {}, 'counts': {}, 'evaluations': 0, 'traces_validated_against_impl': 0, 'nontrivial': set(),
+            'samples': [], 'extra': {}, 'batch': []}
+    real_lp = scipy.optimize.linprog
+    rec = recorder.Recorder()
+    rec.install()
+    try:
+        for scale, seed, sense, m in items:
+            rng = common.rng('C08mag/%s/%d' % (scale, seed))
+            n = 3
+            cost = [rng.choice([1.0, 2.0, 3.0, 7.0, 0.3]) for _ in range(n)]
+            w = [rng.choice([1.0, 3.0, 7.0, 0.7, 11.0]) for _ in range(n)]
+            budget = scale * rng.choice([2.5, 7.0, 1.0, 3.3])
+            floor_ = budget * rng.choice([0.1, 0.3])
+            ub = [budget, budget / 2, budget / 3]
+            x = optyx.VectorVariable('x', n, lb=0)
+            for i in range(n):
+                x[i].ub = ub[i]
+            c = np.array(cost)
+            p = optyx.Problem()
+            (p.minimize if sense == 'min' else p.maximize)(c @ x)
+            p.subject_to(np.array(w) @ x <= budget)
+            p.subject_to(x.sum() >= floor_)
+            A = np.array([w, [-1.0] * n])
+            b = np.array([budget, -floor_])
+            ref = real_lp(c if sense == 'min' else -c, A_ub=A, b_ub=b, bounds=[(0.0, u) for u in ub], method=REF_METHOD[m])
+            ref_status = {0: 'optimal', 1: 'max_iterations', 2: 'infeasible', 3: 'unbounded'}.get(int(ref.status), 'failed')
+            with warnings.catch_warnings():
+                warnings.simplefilter('ignore')
+                try:
+                    s = p.solve(method=m)
+                except Exception as e:
+                    pviolation(part, 'LP[magnitude %g]' % scale, 'solve raises %s on a linear problem' % type(e).__name__, {'method': m})
+                    continue
+            part['evaluations'] += 1
+            part['nontrivial'].add('%g/%d/%s' % (scale, seed, sense))
+            if s.status.value != ref_status:
+                pviolation(part, 'LP[magnitude %g]' % scale, 'status differs from the reference LP (%s vs %s)' % (s.status.value, ref_status),
+                           {'method': m, 'sense': sense, 'cost': cost, 'weights': w, 'budget': budget, 'floor': floor_})
+            elif ref_status == 'optimal':
+                ro = float(ref.fun) if sense == 'min' else -float(ref.fun)
+                if s.objective_value is None or abs(s.objective_value - ro) > 1e-7 * (1 + abs(ro)):
+                    pviolation(part, 'LP[magnitude %g]' % scale, 'optimal objective value differs from the reference LP', {'method': m, 'got': s.objective_value, 'expected': ro})
+    finally:
+        rec.uninstall()
+    part['batch'] = rec.batch()
+    return part
+
+
 def run(report, tier):
+    from .. import histrun
+    from .c13 import validate_traces
+    items = [(sc, sd, sn, m) for sc in (1e-6, 1.0, 1e4, 1e8, 2.5e8, 7e9, 1e12) for sd in range(4 if tier == 'quick' else 40) for sn in ('min', 'max') for m in METHODS]
+    batch = []
+    for part in histrun.parallel(magnitude_chunk, items, chunk=14):
+        batch += part.pop('batch')
+        report.merge(part)
+    validate_traces(report, batch, 'C08 magnitudes', keep=())
     KEEP[0] = 40 if tier == 'quick' else 3
     r = apirun.run_config(report, 'MC_C05', observer=observer, report_kinds=(),
                           overrides=None if tier == 'thorough' else {'ObjCands': '<- MC_ObjCandsQ'})
@@ -126,5 +189,6 @@ def run(report, tier):
              'constant sub-expressions, three senses, reflected comparisons; minimise and maximise; bounded, unbounded and infeasible instances '
              'arise from the declared bounds): a seeded 1-in-N sample is solved through optyx with auto plus one of linprog / highs / highs-ds / '
              'highs-ipm, twice each (LP cache hit), and compared in status and optimal objective with the matrix form assembled by TLC from the '
-             'exact normal form and solved by the same linprog method, in both orientations. distinct_nontrivial = enumerated programs; problems_solved = sampled problems.',
+             'exact normal form and solved by the same linprog method, in both orientations. Plus generated budget LPs with data from 1e-6 to 1e12 x 5 methods '
+             'x both orientations under the recorder: status = image of the linprog status code (TraceSolve.tla) and = a direct linprog call. distinct_nontrivial = enumerated programs; problems_solved = sampled problems.',
         exhaustive=False)
